@@ -73,7 +73,7 @@ func BytePattern(t *rapid.T, label string) *big.Int {
 // Raw256 draws any value in [0, 2^256) from the boundary-biased mixture
 // relative to modulus m (not reduced).
 func Raw256(t *rapid.T, m *big.Int, label string) *big.Int {
-	strat := rapid.IntRange(0, 10).Draw(t, label+"_strat")
+	strat := rapid.IntRange(0, 11).Draw(t, label+"_strat")
 	v := new(big.Int)
 	switch strat {
 	case 0:
@@ -103,6 +103,8 @@ func Raw256(t *rapid.T, m *big.Int, label string) *big.Int {
 	case 9: // 2^256 - small
 		v.Sub(two256, one)
 		v.Sub(v, Small(t, label))
+	case 11: // next to a multiple of a limb boundary (carries out of / borrows into a limb; 2^256 mod p folds)
+		v = LimbEdge(t, two256, label)
 	case 10: // within 2^33 of 0 / m / 2^256
 		off := new(big.Int).SetUint64(rapid.Uint64Range(0, 1<<33).Draw(t, label+"_off33"))
 		switch rapid.IntRange(0, 3).Draw(t, label+"_anchor") {
@@ -189,13 +191,15 @@ func Bytes(t *rapid.T, lo, hi int, label string) []byte {
 // carry out of / borrow into the low limb or a fold by 2^256 mod p = 2^32+977
 // changes behaviour.
 func LimbEdge(t *rapid.T, m *big.Int, label string) *big.Int {
-	k := rapid.IntRange(0, 4).Draw(t, label+"_limb")
+	// c * 2^(64*pos) +- e; pos = 1 twice as likely (the low-limb carry is the most common casualty)
+	pos := rapid.SampledFrom([]uint{1, 1, 2, 3, 0}).Draw(t, label+"_limb")
+	c := rapid.SampledFrom([]uint64{1, 1, 2, 3, 1 << 63, ^uint64(0)}).Draw(t, label+"_coef")
 	e := rapid.SampledFrom([]int64{0, 1, 2, 976, 977, 978, 1<<32 - 1, 1 << 32, 1<<32 + 976, 1<<32 + 977, 1<<32 + 978, 2 * (1<<32 + 977), -1}).Draw(t, label+"_edge")
 	ev := big.NewInt(e)
 	if e < 0 {
 		ev = Small(t, label+"_edgesmall")
 	}
-	v := new(big.Int).Lsh(big.NewInt(int64(k)), 64)
+	v := new(big.Int).Lsh(new(big.Int).SetUint64(c), 64*pos)
 	if rapid.Bool().Draw(t, label+"_below") {
 		v.Sub(v, ev)
 	} else {
